@@ -90,7 +90,7 @@ fn check_decode(type_id: u8, body: &[u8], want: &Result<M, String>) -> Result<()
     let got = guarded(|| p.to_rtmp_message());
     match (got, want) {
         (Err(pn), Ok(_)) => Err((format!("C13/from-payload-panic/type-{}", type_id), format!("{} on body {}", pn, hex(body)))),
-        (Err(_), Err(_)) => Ok(()), // panics on malformed bodies are C03's subject
+        (Err(pn), Err(_)) => Err((format!("C13/from-payload-panic/type-{}", type_id), format!("{} on body {} (a malformed body must be reported as an error)", pn, hex(body)))),
         (Ok(Err(e)), Ok(m)) => Err((format!("C13/spec-body-rejected/{}", sig_of(m)), format!("type {} body {} ({}) rejected: {:?}", type_id, hex(body), short(m), e))),
         (Ok(Err(_)), Err(_)) => Ok(()),
         (Ok(Ok(g)), Ok(m)) => {
@@ -187,8 +187,29 @@ pub fn run(run: &Run) {
     run.set("amf0_argument_space", desc);
     let names = ["connect", "_result", "onStatus", "", "\u{e9}"];
     let txs: [u64; 5] = [0f64.to_bits(), 1f64.to_bits(), 4294967296f64.to_bits(), 0x7FF8_0000_0000_0000, (-1f64).to_bits()];
+    let plain = M::Command { name: "createStream".into(), tx: 4f64.to_bits(), object: V::Null, args: vec![V::Str("ok".into())] };
+    let refused_then_ok = AtomicU64::new(0);
     fs.par_iter().enumerate().for_each(|(i, f)| {
         if !f.iter().all(r3::encodable) {
+            // values AMF0 cannot express: the conversion must refuse them (or encode something that
+            // denotes them), and a refusal must not disturb the next, ordinary, conversion on this thread
+            for bad in [M::Command { name: "x".into(), tx: 1f64.to_bits(), object: V::Null, args: f.clone() }, M::Data(f.clone())] {
+                evals.fetch_add(1, Ordering::Relaxed);
+                let lib = r2::to_lib(&bad);
+                match guarded(|| MessagePayload::from_rtmp_message(lib, RtmpTimestamp::new(0), 0)) {
+                    Err(pn) => run.violation("C13/to-payload-panic/inexpressible-arguments", &format!("{} on {}", pn, short(&bad)), json!({"message": short(&bad)})),
+                    Ok(Ok(p)) => {
+                        let denotes = r2::decode(p.type_id, &p.data).map(|m| m == r2::canon(&bad)).unwrap_or(false);
+                        if !denotes {
+                            run.violation("C13/inexpressible-arguments-accepted", &format!("{} was converted to a payload that does not denote it", short(&bad)), json!({"message": short(&bad)}));
+                        }
+                    }
+                    Ok(Err(_)) => {
+                        refused_then_ok.fetch_add(1, Ordering::Relaxed);
+                        report(check_message(&plain, 3, 0).map_err(|(s, d)| (format!("{}/after-a-refused-message", s), d)), json!({"refused_first": short(&bad), "then": short(&plain)}));
+                    }
+                }
+            }
             return;
         }
         let m = M::Data(f.clone());
@@ -210,6 +231,8 @@ pub fn run(run: &Run) {
         b0.extend_from_slice(&b);
         report(check_decode(17, &b0, &Ok(c.clone())), json!({"type_id": 17, "body": hex(&b0)}));
     });
+
+    run.count("refused_then_ordinary_conversions", refused_then_ok.load(Ordering::Relaxed));
 
     // ---- all 256 type ids x bodies: unknown ids pass through untouched ----
     let bodies: Vec<Vec<u8>> = {
@@ -235,6 +258,47 @@ pub fn run(run: &Run) {
                 report(check_message(&m, 3, 4), json!({"type_id": t, "body": hex(b)}));
             }
         }
+    }
+
+    // ---- AMF3-typed ids decode as their AMF0 equivalents: same verdict and value for every body ----
+    {
+        let mut eq_bodies: Vec<Vec<u8>> = bodies.clone();
+        let toks: Vec<Vec<u8>> = vec![vec![2, 0, 1, b'a'], vec![0, 0x3F, 0xF0, 0, 0, 0, 0, 0, 0], vec![5], vec![3, 0, 0, 9], vec![1, 1], vec![0], vec![2, 0, 9], vec![10, 0, 0, 0, 1, 5], vec![6]];
+        for a in toks.iter() {
+            eq_bodies.push(a.clone());
+            for b in toks.iter() {
+                let mut x = a.clone();
+                x.extend_from_slice(b);
+                eq_bodies.push(x.clone());
+                for c in toks.iter() {
+                    let mut y = x.clone();
+                    y.extend_from_slice(c);
+                    eq_bodies.push(y);
+                }
+            }
+        }
+        let class = |t: u8, b: &[u8]| -> String {
+            let p = MessagePayload { timestamp: RtmpTimestamp::new(0), type_id: t, message_stream_id: 0, data: Bytes::from(b.to_vec()) };
+            match guarded(|| p.to_rtmp_message()) {
+                Err(pn) => format!("panic: {}", pn),
+                Ok(Err(_)) => "error".to_string(),
+                Ok(Ok(m)) => format!("{:?}", r2::from_lib(&m)),
+            }
+        };
+        for b in eq_bodies.iter() {
+            for (amf3, amf0) in [(15u8, 18u8), (17, 20)] {
+                evals.fetch_add(1, Ordering::Relaxed);
+                let x = class(amf3, b);
+                let y = class(amf0, b);
+                // type 17 may carry one leading 00 format byte: compare with the stripped body then
+                let y2 = if amf3 == 17 && !b.is_empty() && b[0] == 0 { class(amf0, &b[1..]) } else { y.clone() };
+                if x != y && x != y2 {
+                    let kind = if x.starts_with("panic") { "panic" } else { "differs" };
+                    run.violation(&format!("C13/amf3-typed-id-not-equivalent/{}/type-{}", kind, amf3), &format!("body {}: type {} gives {} but type {} gives {}", hex(b), amf3, x.chars().take(160).collect::<String>(), amf0, y.chars().take(160).collect::<String>()), json!({"body": hex(b), "type_ids": [amf3, amf0]}));
+                }
+            }
+        }
+        run.count("amf3_equivalence_bodies", eq_bodies.len() as u64);
     }
 
     // ---- thorough: all 2^32 values of every u32 field ----
